@@ -156,6 +156,9 @@ def translate_regex(pattern: "re.Pattern[str]") -> str:
                 return ["(plus %s)" % r]
             if (lo, hi) == (0, 1):
                 return ["(opt %s)" % r]
+            if hi is not sc.MAXREPEAT and 0 <= lo <= hi <= 8:
+                # r{m,n} = r^m (r?)^(n-m); lazy/greedy does not change the language
+                return [r] * lo + ["(opt %s)" % r] * (hi - lo)
             raise ExtractError("unsupported repeat {%s,%s} in %r" % (lo, hi, pattern.pattern))
         if op is sc.BRANCH:
             _, alts = av
@@ -184,6 +187,47 @@ def source_fingerprints():
 
 
 def metadata_lookup_order():
+    """(field, required) in the order Metadata.from_chart_lines looks fields up.
+    First from the AST (the literal set_kwarg / maybe_set_kwarg calls); if the function has been restructured,
+    dynamically: the order in which `_field_parsing_specs` is subscripted while parsing a [Song] body that
+    defines every field, with `required` = the dataclass field has no default."""
+    try:
+        return _metadata_lookup_order_ast()
+    except ExtractError:
+        return _metadata_lookup_order_dynamic()
+
+
+def _metadata_lookup_order_dynamic():
+    import dataclasses
+    import chartparse.metadata as meta
+
+    class Recorder(dict):
+        def __init__(self, d):
+            super().__init__(d)
+            self.order = []
+
+        def __getitem__(self, k):
+            if k not in self.order:
+                self.order.append(k)
+            return super().__getitem__(k)
+
+    orig = meta._field_parsing_specs
+    rec = Recorder(orig)
+    meta._field_parsing_specs = rec
+    try:
+        try:
+            meta.Metadata.from_chart_lines(["  Resolution = 192"])
+        except Exception as e:  # noqa: BLE001
+            raise ExtractError("cannot observe the metadata look-up order dynamically: %r" % (e,))
+    finally:
+        meta._field_parsing_specs = orig
+    if set(rec.order) != set(orig):
+        raise ExtractError("metadata look-up order: not every field spec was consulted (%r)" % (sorted(set(orig) ^ set(rec.order)),))
+    dfields = {f.name: f for f in dataclasses.fields(meta.Metadata)}
+    return [(n, dfields[n].default is dataclasses.MISSING) for n in rec.order]
+
+
+def _metadata_lookup_order_ast():
     """(field, required) in the order Metadata.from_chart_lines looks fields up (from its AST)."""
     path = os.path.join(REPO, "chartparse", "metadata.py")
     tree = ast.parse(open(path).read())
